@@ -39,6 +39,7 @@ type Sched struct {
 	visible  int
 	killed   bool
 	preemptBound int
+	spinBound    int
 	preemptions  int
 }
 
@@ -130,6 +131,11 @@ func (ex *Exec) reschedule(me *vthread) {
 		ex.deadlock(blocked)
 	}
 	s.visible++
+	if s.spinBound > 0 && s.visible > s.spinBound {
+		// fairness assumption of the harness: schedules that let a thread spin this long while
+		// another enabled thread never runs are not considered
+		panic(&pathAbort{Kind: "assume-false", Msg: "unfair schedule (spin bound)"})
+	}
 	if s.visible > maxVisibleOps {
 		panic(&pathAbort{Kind: "budget", Msg: fmt.Sprintf("more than %d visible operations on one path", maxVisibleOps)})
 	}
@@ -457,6 +463,13 @@ func init() {
 		if k > 0 {
 			ex.assumptions[fmt.Sprintf("schedules with at most %d preemptions (context switches at blocking points are unrestricted)", k)] = true
 		}
+		return nil
+	}
+	// vxSpinBound(n): fairness - a path with more than n visible operations is an unfair schedule
+	vxAPI["vxSpinBound"] = func(ex *Exec, fr *Frame, fn *ssa.Function, args []Value, site ssa.Instruction) Value {
+		n := argInt(ex, args[0])
+		ex.sched().spinBound = n
+		ex.assumptions[fmt.Sprintf("fair schedules: at most %d visible operations per path (a polling loop is not allowed to starve an enabled thread longer)", n)] = true
 		return nil
 	}
 	vxAPI["vxThreadID"] = func(ex *Exec, fr *Frame, fn *ssa.Function, args []Value, site ssa.Instruction) Value {
